@@ -172,7 +172,13 @@ impl TypedReprRef<'_> {
                 RefLarge(words) => {
                     let mut buffer = Buffer::from(words);
                     debug_assert_zero!(add::sub_one_in_place(&mut buffer));
-                    words_to_le_bytes::<true>(&buffer)
+                    let mut bytes = words_to_le_bytes::<true>(&buffer);
+                    // `magnitude - 1` has fewer bytes than the magnitude if the magnitude is a
+                    // power of 256, the flipped leading zero bytes have to be kept in this case
+                    let n_bytes =
+                        words.len() * WORD_BYTES - words.last().unwrap().leading_zeros() as usize / 8;
+                    bytes.resize(n_bytes, 0xff);
+                    bytes
                 }
             }
         } else {
@@ -220,7 +226,15 @@ impl TypedReprRef<'_> {
                 RefLarge(words) => {
                     let mut buffer = Buffer::from(words);
                     debug_assert_zero!(add::sub_one_in_place(&mut buffer));
-                    words_to_be_bytes::<true>(&buffer)
+                    let mut bytes = words_to_be_bytes::<true>(&buffer);
+                    // `magnitude - 1` has fewer bytes than the magnitude if the magnitude is a
+                    // power of 256, the flipped leading zero bytes have to be kept in this case
+                    let n_bytes =
+                        words.len() * WORD_BYTES - words.last().unwrap().leading_zeros() as usize / 8;
+                    while bytes.len() < n_bytes {
+                        bytes.insert(0, 0xff);
+                    }
+                    bytes
                 }
             }
         } else {
